@@ -48,6 +48,7 @@ CONSTANTS Deviations, \* the named deviations of the coded decoders that the des
           Large,     \* TRUE = the large alphabets of scopes items/bytes
           NV,        \* sample variants 0..NV-1 per type (scope typed)
           NodeCap,   \* at most this many nodes of a sample are mutated (stride selection)
+          SeqDepth,  \* number of steps of a stateful sequence (scope "seq")
           PairK,     \* the pairwise value mutation is applied to every sample and to real objects number 0..PairK-1 of a type
           MaxMut,    \* number of mutations applied in sequence
           GenMode    \* "none" | "print" : print every case as JSON
@@ -465,6 +466,58 @@ BigDescs == UNION { { [ty |-> sh.ty, j |-> sh.j, pre |-> sh.pre, post |-> sh.pos
                       : kc \in BigKinds(sh) } : sh \in BigShapes }
 InitBig == { [ty |-> d.ty, sid |-> 0, b |-> Expand(d), mut |-> <<>>, op |-> "none", d |-> d] : d \in BigDescs }
 
+\* ======================================================================= the encode side at the header-class boundaries
+\* A virtual string of n copies of the byte f is the item [k |-> "m", f |-> f, n |-> n]; EncC is Enc with every virtual
+\* string written as its header followed by the pair (-1, n) instead of its n bytes, so that the encoding of an object with
+\* a megabyte field can be predicted and compared without carrying the megabyte.  SizeC is the length of the real encoding.
+Virt(f, n) == [k |-> "m", f |-> f, n |-> n]
+HdrLen(n) == IF n < 56 THEN 1 ELSE 1 + Len(BEBytes(n))
+RECURSIVE SizeC(_), SizeSeqC(_), EncC(_), EncSeqC(_)
+SizeC(it) == CASE it.k = "s" -> IF Len(it.v) = 1 /\ it.v[1] < 128 THEN 1 ELSE HdrLen(Len(it.v)) + Len(it.v)
+               [] it.k = "m" -> HdrLen(it.n) + it.n                    \* n >= 2
+               [] it.k = "l" -> LET p == SizeSeqC(it.e) IN HdrLen(p) + p
+SizeSeqC(q) == IF q = <<>> THEN 0 ELSE SizeC(Head(q)) + SizeSeqC(Tail(q))
+EncC(it) == CASE it.k = "s" -> Enc(it)
+              [] it.k = "m" -> EncLen(it.n, 128) \o <<-1, it.n>>
+              [] it.k = "l" -> EncLen(SizeSeqC(it.e), 192) \o EncSeqC(it.e)
+EncSeqC(q) == IF q = <<>> THEN <<>> ELSE EncC(Head(q)) \o EncSeqC(Tail(q))
+\* the real bytes a compressed encoding stands for (used to check EncC against Enc in small scope)
+RECURSIVE Decomp(_, _)
+Decomp(q, f) == IF q = <<>> THEN <<>> ELSE IF Head(q) = -1 THEN Fill(q[2], f) \o Decomp(SubSeq(q, 3, Len(q)), f)
+                ELSE <<Head(q)>> \o Decomp(Tail(q), f)
+\* the lengths at which the size of a header changes (and their neighbours)
+BoundaryLens == {55, 56, 255, 256, 65535, 65536, 1048576}
+\* the path of the unique leaf of `it` whose content is three bytes f (the marker the driver plants), <<0>> when not unique
+MarkerPath(it, f) == LET ps == PathSeq(it)
+                         hit == { i \in DOMAIN ps : At(it, ps[i]) = S(<<f, f, f>>) }
+                     IN IF Cardinality(hit) = 1 THEN ps[CHOOSE i \in hit : TRUE] ELSE <<0>>
+
+\* ======================================================================= stateful sequences on mutable containers
+\* The content of a container is a duplicate-free sequence of element numbers; add appends an absent element, del
+\* removes it, enc / copy / redecode leave it unchanged.  Scope "seq" enumerates every sequence of SeqDepth steps the
+\* type's API admits; the monitor folds the same SeqApply and requires the real object's encoding (and List-style view) to
+\* be that of a FRESH object with this content.
+SeqTypes == {"ValidatorIndex", "WithdrawQueue", "EvidenceDoubleSign", "PendingRelationship", "ValidatorsStat", "Validators"}
+SeqX == {1, 2}
+SeqInit(t) == IF t = "Validators" THEN <<1, 2>> ELSE <<1>>
+InSeq(x, q) == \E i \in DOMAIN q : q[i] = x
+SeqApply(op, x, q) == CASE op = "add" -> IF InSeq(x, q) THEN q ELSE Append(q, x)
+                        [] op = "del" -> SelectSeq(q, LAMBDA y : y # x)
+                        [] OTHER -> q
+\* what the production callers do (a queue record / a counted validator is removed only when present, an evidence is
+\* built once) and what the type offers (no removal from the pending relationships, no insertion into Validators; its
+\* DecodeRLP, which no production path calls, does not rebuild the index Remove needs)
+SeqAllowed(t, op, x, q) ==
+  CASE op = "add" -> /\ t # "Validators" /\ (t \in {"WithdrawQueue", "ValidatorsStat"} => ~InSeq(x, q))
+                     /\ (t = "EvidenceDoubleSign" => q = <<>>)
+    [] op = "del" -> t # "PendingRelationship" /\ (t \in {"WithdrawQueue", "ValidatorsStat"} => InSeq(x, q))
+    [] op = "redecode" -> t # "Validators"
+    [] OTHER -> TRUE
+SeqSteps(cc) == { st \in ({"add", "del"} \X SeqX) \cup ({"enc", "copy", "redecode"} \X {0}) :
+                    /\ SeqAllowed(cc.ty, st[1], st[2], cc.cont)
+                    /\ ~(st[2] = 0 /\ cc.h # <<>> /\ cc.h[Len(cc.h)].op = st[1]) }
+InitSeq == { [ty |-> t, sid |-> 0, b |-> <<>>, mut |-> <<>>, op |-> "none", cont |-> SeqInit(t), h |-> <<>>] : t \in SeqTypes }
+
 \* ======================================================================= scopes
 SeedLog == ndJsonDeserialize("seeds.ndjson")     \* real encodings produced by the driver: [ty, b, nodes, id]
 SeedBase == 1000
@@ -523,6 +576,7 @@ InitSet == CASE Scope = "items" -> InitItems
              [] Scope = "seeds" -> InitSeeds
              [] Scope = "all"   -> InitTyped \cup InitSeeds
              [] Scope = "big"   -> InitBig
+             [] Scope = "seq"   -> InitSeq
 Init == c \in InitSet
 
 Label(op, i) == op \o "@" \o ToString(i)
@@ -566,6 +620,10 @@ ByteMutants(cc) == { MutCase(cc, ByteMut(op, cc.b), op, 0) : op \in { o \in Byte
 Next == \/ /\ Scope \in {"typed", "seeds", "all"}
            /\ Len(c.mut) < MaxMut
            /\ c' \in NodeMutants(c) \cup ByteMutants(c)
+        \/ /\ Scope = "seq"
+           /\ Len(c.h) < SeqDepth
+           /\ \E st \in SeqSteps(c) : LET q == SeqApply(st[1], st[2], c.cont) IN
+                 c' = [c EXCEPT !.cont = q, !.h = Append(@, [op |-> st[1], x |-> st[2], cont |-> q])]
         \/ /\ Scope = "items"
            /\ \E x \in GrowItem(c.it) : c' = ItemCase(x)
         \/ /\ Scope = "bytes"
@@ -584,7 +642,7 @@ Typed == c.ty # "generic"
 \* the expensive part); a failing conjunct prints its name.
 Named(n, x) == x \/ (PrintT(<<"FAILED", n, c.ty, c.mut>>) /\ FALSE)
 TypedSelfCheck ==
-   (Typed /\ Scope # "big") => LET s == SchemaOf(c)
+   (Typed /\ Scope \notin {"big", "seq"}) => LET s == SchemaOf(c)
                 p == Parse(c.b)
                 strict == p.ok /\ Match(s, p.it, TRUE)      \* TypedCanonical
                 len == p.ok /\ Match(s, p.it, FALSE)        \* Accepts
@@ -614,8 +672,19 @@ BigSound == (Scope = "big") =>
    /\ Named("BigStrict", (p.ok /\ Match(s, p.it, TRUE)) <=> BigAccept(c.d, TRUE))
    /\ Named("BigDesign", (p.ok /\ Match(s, p.it, FALSE)) <=> BigAccept(c.d, FALSE))
    /\ Named("BigGeneric", p.ok <=> BigGeneric(c.d))
+\* the model of a container's content: no duplicates, only known elements
+SeqSound == (Scope = "seq") => /\ \A i, j \in DOMAIN c.cont : i # j => c.cont[i] # c.cont[j]
+                              /\ \A i \in DOMAIN c.cont : c.cont[i] \in SeqX
+\* the compressed encoder against the encoder: for the string leaves of every unmutated sample, at small lengths on both
+\* sides of the first header-class boundary
+EncCSound == (Scope \in {"typed", "all"} /\ c.mut = <<>> /\ c.sid < SeedBase) =>
+   LET p == Parse(c.b) ps == PathSeq(p.it) IN
+   \A i \in { j \in DOMAIN ps : j <= 12 /\ At(p.it, ps[j]).k = "s" } : \A n \in {2, 55, 56, 300} :
+      /\ Decomp(EncC(Subst(p.it, ps[i], Virt(165, n))), 165) = Enc(Subst(p.it, ps[i], S(Fill(n, 165))))
+      /\ SizeC(Subst(p.it, ps[i], Virt(165, n))) = Len(Enc(Subst(p.it, ps[i], S(Fill(n, 165)))))
 \* ======================================================================= generation (G)
 Emit == (GenMode = "print") =>
-   IF Scope = "big" THEN PrintT("@@J " \o ToJson([kind |-> "D", d |-> c.d]))
+   IF Scope = "seq" THEN (Len(c.h) = SeqDepth => PrintT("@@J " \o ToJson([kind |-> "Q", ty |-> c.ty, init |-> SeqInit(c.ty), ops |-> c.h])))
+   ELSE IF Scope = "big" THEN PrintT("@@J " \o ToJson([kind |-> "D", d |-> c.d]))
    ELSE PrintT("@@J " \o ToJson([kind |-> "B", ty |-> c.ty, sid |-> c.sid, b |-> c.b, mut |-> c.mut]))
 =============================================================================
